@@ -465,6 +465,22 @@ func init() {
 		store(fr.i, rvType(v), f.p, args[1])
 		return nil
 	}
+	ex["(reflect.Value).OverflowInt"] = func(fr *frame, args []value) value {
+		v := args[0]
+		mustBe(v, "reflect.Value.OverflowInt", intKinds...)
+		t := rvType(v)
+		i64 := types.Typ[types.Int64]
+		back := conv(fr, i64, t, conv(fr, t, i64, args[1]))
+		return vNot(equals(i64, back, args[1]))
+	}
+	ex["(reflect.Value).OverflowUint"] = func(fr *frame, args []value) value {
+		v := args[0]
+		mustBe(v, "reflect.Value.OverflowUint", uintKinds...)
+		t := rvType(v)
+		u64 := types.Typ[types.Uint64]
+		back := conv(fr, u64, t, conv(fr, t, u64, args[1]))
+		return vNot(equals(u64, back, args[1]))
+	}
 	ex["reflect.Append"] = func(fr *frame, args []value) value {
 		s := args[0]
 		mustBe(s, "reflect.Append", reflect.Slice)
